@@ -11,6 +11,7 @@ Decided:
          objective simulates after it writes H; simulate() publishes the results of the run it just made on
          every returning path and returns their extremes; GHEManager.find_design ends with
          compute_g_functions -> size on the object it publishes and touches nothing afterwards
+  R12.5  per-run state: the search log is a fresh per-object list; prepare_results() always reports the current search
   R12.4  search log: every row is [spec, cost(a, b), a, b] with (a, b) the extremes returned by simulate(),
          and cost has normal form max(a - max_allowed, min_allowed - b)
 
@@ -67,7 +68,41 @@ def check(prog: Program, tier: str) -> Result:
     _check_freshness(prog, res)
     _check_summaries(prog, res)
     _check_search_log(prog, res)
+    _check_per_run_state(prog, res)
     return res
+
+
+def _check_per_run_state(prog: Program, res: Result):
+    """R12.5: what is reported belongs to THIS run: the search log is a per-object list (not a class-level container shared by
+    all searches), and prepare_results() builds the report from the current search every time (no keyless early return).
+    Decided by the C13 machinery (R13.8 / R13.9), restricted to the objects the report is made of."""
+    from . import c13
+
+    tmp = Result("C13")
+    c13._check_class_level_mutables(prog, tmp)
+    c13._check_keyless_memos(prog, tmp)
+    hit = False
+    for f in tmp.findings:
+        if "searchTracker" in f.key or "self.results" in f.key or "OutputManager" in f.key:
+            hit = True
+            res.violation("R12.5", f.key.split("|", 1)[-1], f.where, f.func, f.message + " - the summary / search log of a run then contains another run's data")
+    # the search log must be created in the constructors of the search classes
+    SRm = "ghedesigner.search_routines"
+    n = 0
+    for cq, c in sorted(prog.classes.items()):
+        if not cq.startswith(SRm + ".") or "calculate_excess" not in c.methods:
+            continue
+        n += 1
+        fresh = False
+        for b in prog.mro(cq):
+            init = b.methods.get("__init__")
+            if init is not None and any(isinstance(x, ast.Assign) and any(attr_chain(t) == "self.searchTracker" for t in x.targets) and isinstance(x.value, ast.List) and not x.value.elts for x in ast.walk(init.node)):
+                fresh = True
+        res.ob("R12.5", f"{c.name}: the search log starts as a fresh empty list in the constructor", fresh, f"{c.module.replace('.', '/')}.py:{c.node.lineno}")
+        if not fresh and not hit:
+            res.violation("R12.5", f"log-not-fresh|{cq}", f"{c.module.replace('.', '/')}.py:{c.node.lineno}", cq, f"{c.name} does not start its search log as a fresh list: rows of other searches can appear in the report")
+    if n < 2:
+        raise AnalysisError("search classes with a search log not found")
 
 
 def _check_freshness(prog: Program, res: Result):
